@@ -94,6 +94,10 @@ def fvalOf (parts : List String) : Except String FVal :=
     else pure (.fin (mkRat m (pow2 (-e).toNat)))
   | _ => throw "bad float"
 
+/-- how a cell of a Go type outside the scalar domain is represented (see `cellOfTok`, tag `U`) -/
+def unknownCell (goType : Str) : Cell :=
+  .time { unix := 0, ns := 0, off := 0, y := 0, mo := 99, d := 0, h := 0, mi := 0, s := 0, zone := goType }
+
 def cellOfTok (t : String) : Except String Cell := do
   if t == "N" then pure .nil
   else
@@ -133,7 +137,7 @@ def cellOfTok (t : String) : Except String Cell := do
       -- expected frame contains (a time with month 99 carrying the Go type name), so every comparison with
       -- the specification fails on it and the case is reported with its input
       let s ← hexDecode body.toList
-      pure (.time { unix := 0, ns := 0, off := 0, y := 0, mo := 99, d := 0, h := 0, mi := 0, s := 0, zone := s })
+      pure (unknownCell s)
     | _ => throw s!"unknown cell {t}"
 
 def pCell : P Cell := do
